@@ -421,6 +421,27 @@ Definition inst_dict_update (o d : pyval) : res pyval :=
   | _ => Raise Unmodelled
   end.
 
+(* d[k] = x on a local dict: the updated dict *)
+Definition py_dict_setitem (d k x : pyval) : res pyval :=
+  match d with
+  | PDict kv => if py_hashable' k then Ok (PDict (dict_set kv k x)) else Raise TypeError
+  | _ => Raise Unmodelled
+  end.
+
+(* o.__dict__[k] = x: a plain store into the instance dictionary (no descriptor, no __setattr__) *)
+Definition inst_dict_setitem (o k x : pyval) : res pyval :=
+  match o, k with
+  | PStruct c attrs, PStr a => Ok (PStruct c (alist_set attrs a x))
+  | _, _ => Raise Unmodelled
+  end.
+
+(* o.__dict__.setdefault(k, x) as a statement: stores x unless k is already there *)
+Definition inst_dict_setdefault (o k x : pyval) : res pyval :=
+  match o, k with
+  | PStruct c attrs, PStr a => Ok (if alist_has attrs a then o else PStruct c (alist_set attrs a x))
+  | _, _ => Raise Unmodelled
+  end.
+
 (* getattr(o, k) on a heap object with a run-time name *)
 Definition obj_getattr_dyn (h : heap) (o k : pyval) : res pyval :=
   match k with
